@@ -129,10 +129,10 @@ PROPS = {
                              thorough=[('scenario', ['-dir', '@ROOT/corpus/C03']), ('hist', ['-n', 20000, '-scans', 12]), ('hist', ['-n', 10000, '-scans', 12, '-focus', 'autodisc']), ('hist', ['-n', 10000, '-scans', 12, '-focus', 'restore'])],
                              search=[('hist', ['-n', 1500, '-scans', 12]), ('hist', ['-n', 1500, '-scans', 12, '-focus', 'autodisc']), ('hist', ['-n', 1500, '-scans', 12, '-focus', 'restore'])]),
                 aspects=['hist:taintadds', 'hist:untaints'], monitors=['C03'],
-                theorems=['Esc.P.C03_floor', 'Esc.P.C03_below_min', 'Esc.P.C03_history'],
+                theorems=['Esc.P.C03_floor', 'Esc.P.C03_below_min', 'Esc.P.C03_restore', 'Esc.P.C03_history'],
                 technique='Lean 4 theorem (journal shape + counting lemma for the taint loop) + differential correspondence and runtime monitor',
                 level_text='C03_floor / C03_history: for every rate, minimum (configured or auto-discovered), state, view with unique node names and environment, along every history, '
-                           'untainted-seen minus accepted-taint-adds >= effective minimum whenever a taint is added; C03_below_min: below the minimum nothing is tainted. '
+                           'untainted-seen minus accepted-taint-adds >= effective minimum whenever a taint is added; C03_below_min: below the minimum nothing is tainted; C03_restore: with the node count within bounds, fewer untainted nodes than the minimum and no cool-down running (for ANY controller state, hence whatever earlier scans left behind) the scan is exactly ScaleUp(min - untainted) on the tainted nodes: untaint newest first, then the remainder from the cloud (C07_order, C07_remainder) - no early return. '
                            'Tie: hist correspondence on taint-adding and taint-removing updates; the same predicate monitored on observed journals.',
                 level_note=LEVEL_NOTE),
     'C04': dict(level='proof', module='EscProofs.P.C04',
